@@ -36,7 +36,7 @@ ASSUMPTIONS = [
     "held means: held on the executions listed, not verified for all sizes and placements",
 ]
 MINIMA = {"quick": {"reads_compared": 500, "second_pass_requests": 200, "cases_beyond_2^32_bytes": 15, "cases_beyond_2^32_sectors": 5, "multi_tib_cases": 15},
-          "thorough": {"reads_compared": 2500}}
+          "thorough": {"reads_compared": 15000}}
 MECH = "lazy-io"
 BUF = 8192
 TIB = 1 << 40
@@ -45,7 +45,7 @@ FORMATS = ["qcow2-64k", "qcow2-2m", "vhdx", "vhdx-4k", "vmdk-hosted", "vmdk-sesp
 
 def plan(tier: str, seed: int) -> list[dict]:
     cases = []
-    reps = 2 if tier == "quick" else 12
+    reps = 2 if tier == "quick" else 60
     for f in FORMATS:
         for r in range(reps):
             cases.append({"fmt": f, "r": r, "weight": 3})
